@@ -13,7 +13,7 @@ git apply "$patch"
 ev=$(mktemp -d /tmp/seedev.XXXXXX)
 out=""
 rules=""
-for i in $(seq -w 1 18); do
+for i in $(seq -w 1 19); do
   r=$(VERIF_EVIDENCE_DIR=$ev /venv/bin/python /verif/check C$i --tier quick 2>&1)
   rc=$?
   if [ $rc -eq 1 ]; then
